@@ -110,6 +110,23 @@ def call(api, fn, *args, prop=None, tags=(), detail=None, refusals=(), refusal_p
     return True, r
 
 
+def refused_then_used(api, fn, *args, prop=None, **kwargs):
+    """an inadmissible call on a live object (in-place variants included); the monitored wrapper judges what the refusal left behind
+    (`operand_unchanged_by_refused_call`, argument / option lists unchanged).  Returns True if the call was refused."""
+    c = core.ctx()
+    try:
+        fn(*args, **kwargs)
+        c.events['inadmissible_accepted:' + api] += 1
+        return False
+    except Exception as e:  # noqa
+        probe.S.busy = 0
+        probe.S.depth = 0
+        del probe.S.targets[:]
+        del probe.S.apis[:]
+        c.events['refused_in_place_call:' + api + ':' + type(e).__name__] += 1
+        return True
+
+
 def expect_refusal(api, fn, *args, prop=None, **kwargs):
     """inadmissible input: nothing is asserted about the outcome except that arguments stay intact (M4 in the
     contract); counted for evidence"""
